@@ -1201,64 +1201,57 @@ _GRAD_OF = {'evaluate': 'evaluate_gradient', 'logpdf': 'gradient_logpdf',
             'predict_var': 'predictive_gradient_var'}
 
 
-def _single_return(node):
-    body = [s for s in node.body if not (isinstance(s, ast.Expr) and
-                                         isinstance(s.value, ast.Constant))]
-    if len(body) == 1 and isinstance(body[0], ast.Return) and body[0].value is not None:
-        return body[0].value
-    return None
-
-
-def _signed_call(e, param):
-    """`[-] owner.meth(param, extra...)` / `-1 * owner.meth(param, ...)` -> (sign, owner, meth,
-    extras) or None."""
+def _signed_call_term(t, param):
+    """Term of `[-] owner.meth(param, extra...)` / `-1 * owner.meth(param, ...)` ->
+    (sign, owner term, meth, extras) or None."""
     sign = 1
     while True:
-        if isinstance(e, ast.UnaryOp) and isinstance(e.op, ast.USub):
-            sign, e = -sign, e.operand
-        elif isinstance(e, ast.BinOp) and isinstance(e.op, ast.Mult) and any(
-                isinstance(s, ast.UnaryOp) and isinstance(s.op, ast.USub) and
-                isinstance(s.operand, ast.Constant) and s.operand.value == 1
-                for s in (e.left, e.right)):
-            neg_left = isinstance(e.left, ast.UnaryOp) and isinstance(e.left.operand, ast.Constant)
-            sign, e = -sign, (e.right if neg_left else e.left)
+        if t[0] == 'unary' and t[1] == '-':
+            sign, t = -sign, t[2]
+        elif t[0] == 'binop' and t[1] == '*' and ('const', -1) in (t[2], t[3]):
+            sign, t = -sign, (t[3] if t[2] == ('const', -1) else t[2])
+        elif t[0] == 'binop' and t[1] == '*' and ('unary', '-', ('const', 1)) in (t[2], t[3]):
+            sign, t = -sign, (t[3] if t[2] == ('unary', '-', ('const', 1)) else t[2])
         else:
             break
-    if not (isinstance(e, ast.Call) and isinstance(e.func, ast.Attribute) and e.args and
-            isinstance(e.args[0], ast.Name) and e.args[0].id == param):
+    if not (t[0] == 'call' and t[1][0] == 'attr' and t[2] and t[2][0] == ('param', param)):
         return None
-    extras = tuple(ast.dump(a) for a in e.args[1:]) + tuple(
-        sorted('{}={}'.format(k.arg, ast.dump(k.value)) for k in e.keywords))
-    return sign, ast.unparse(e.func.value), e.func.attr, extras
+    return sign, t[1][1], t[1][2], (tuple(t[2][1:]), tuple(t[3]))
+
+
+def _body_objective(ctx, f, skip):
+    rr = [r for r in returns(f) if r.value is not None]
+    ps = f.params[skip:]
+    if len(rr) != 1 or not ps:
+        return None
+    return _signed_call_term(ctx.ex(f).term(rr[0].value), ps[0])
 
 
 def _objective_of(ctx, fn, e):
     """What the callable `e` (an argument of minimize) computes: (sign, owner, method, extras)."""
-    if isinstance(e, ast.Lambda) and e.args.args:
-        return _signed_call(e.body, e.args.args[0].arg)
+    known = set(_GRAD_OF) | set(_GRAD_OF.values())
     if isinstance(e, ast.Name):
         for n in ast.walk(fn.node):
-            if isinstance(n, ast.FunctionDef) and n.name == e.id and n is not fn.node:
-                v = _single_return(n)
-                if v is None or not n.args.args:
+            if isinstance(n, ast.FunctionDef) and n.name == e.id and n is not fn.node and \
+                    getattr(n, '_fninfo', None) is not None:
+                sc = _body_objective(ctx, n._fninfo, 0)
+                if sc is None:
                     return None
-                return _signed_call(v, n.args.args[0].arg)
+                # `self` of the enclosing method is a closure variable inside the local function
+                owner = ('param', 'self') if sc[1][:2] == ('closure', 'self') else sc[1]
+                return sc[0], owner, sc[2], sc[3]
         return None
     if isinstance(e, ast.Attribute):
-        owner = ast.unparse(e.value)
-        if owner == 'self' and fn.cls is not None:
-            m = ctx.repo.find_method(fn.cls, e.attr) if hasattr(ctx.repo, 'find_method') else None
-            if m is None:
-                m = fn.cls.methods.get(e.attr)
+        owner = ctx.ex(fn).term(e.value)
+        if e.attr in known:
+            return 1, owner, e.attr, ((), ())
+        if owner == ('param', 'self') and fn.cls is not None:
+            m = fn.cls.lookup(e.attr)
             if m is not None:
-                v = _single_return(m.node)
-                ps = m.params
-                if v is not None and len(ps) >= 2:
-                    sc = _signed_call(v, ps[1])
-                    if sc is not None and sc[1] == 'self' and sc[2] in set(_GRAD_OF) | set(
-                            _GRAD_OF.values()):
-                        return sc
-        return 1, owner, e.attr, ()
+                sc = _body_objective(ctx, m, 1)
+                if sc is not None and sc[2] in known:
+                    return sc
+        return None
     return None
 
 
@@ -1302,11 +1295,39 @@ def c11_q(ctx):
             ok = want is not None and og[2] == want and of[0] == og[0] and of[1] == og[1] and \
                 of[3] == og[3]
             ctx.check(ok, fn, 'objective and gradient belong together',
-                      '{}{}.{} with {}{}.{}'.format('-' if of[0] < 0 else '', of[1], of[2],
-                                                    '-' if og[0] < 0 else '', og[1], og[2]),
-                      'minimize is given {}{}.{}{} as objective but {}{}.{}{} as its gradient'.format(
-                          '-' if of[0] < 0 else '', of[1], of[2], list(of[3]) or '',
-                          '-' if og[0] < 0 else '', og[1], og[2], list(og[3]) or ''),
+                      '{}{}.{} with {}{}.{}'.format('-' if of[0] < 0 else '', show(of[1]), of[2],
+                                                    '-' if og[0] < 0 else '', show(og[1]), og[2]),
+                      'minimize is given {}{}.{}({}) as objective but {}{}.{}({}) as its '
+                      'gradient'.format(
+                          '-' if of[0] < 0 else '', show(of[1]), of[2],
+                          ', '.join(['x'] + [show(a) for a in of[3][0]]),
+                          '-' if og[0] < 0 else '', show(og[1]), og[2],
+                          ', '.join(['x'] + [show(a) for a in og[3][0]])),
                       fn=fn, node=c)
     if n < 3:
         raise AnchorMissing('expected at least 3 minimize calls with a gradient, found {}'.format(n))
+    # the wrapper itself: the objective, its gradient and the bounds reach scipy's optimiser in
+    # their roles, and location and value of one start are returned together
+    ex = ctx.ex(mz)
+    sc = [c for c in ctx.calls(mz, name='minimize')]
+    if not sc:
+        raise AnchorMissing('minimize does not call scipy.optimize.minimize')
+    for c in sc:
+        kw = dict((k.arg, ex.term(k.value)) for k in c.keywords)
+        a0 = ex.term(c.args[0]) if c.args else kw.get('fun')
+        ok = a0 == ('param', mz.params[0]) and kw.get('jac') == ('param', 'grad') and \
+            kw.get('bounds') == ('param', 'bounds')
+        ctx.check(ok, mz, 'scipy receives objective, gradient and bounds in their roles',
+                  'scipy.optimize.minimize(fun, x0, jac=grad, bounds=bounds, ...)',
+                  'the wrapper does not hand (fun, jac=grad, bounds=bounds) to scipy: `{}`'.format(
+                      src(c)[:80]), fn=mz, node=c)
+    rr = returns(mz)
+    if len(rr) == 1:
+        rt = ex.term(rr[0].value)
+        ok = rt[0] == 'tuple' and len(rt[1]) == 2 and rt[1][0][0] == 'sub' and \
+            rt[1][1][0] == 'sub' and rt[1][0][2] == rt[1][1][2] and \
+            match(rt[1][0][2], pattern('np.argmin(_)')) is not None
+        ctx.check(ok, mz, 'location and value of the best start are returned together',
+                  'locs[argmin(vals)], vals[argmin(vals)]',
+                  'the returned location and value do not belong to the same (best) start: '
+                  '{}'.format(show(rt)[:100]), fn=mz, node=rr[0])
